@@ -172,6 +172,10 @@ type World struct {
 	Filter func(m *Msg) []*Msg
 	// Propose returns the scenario choices enabled at this quiescent point.
 	Propose func() []Proposal
+	// Force lets a replayed action list fire a scenario proposal that the scenario
+	// would not offer at this point on its own (used by minimisation: an injection
+	// identified by its ordinal can be replayed without its predecessors).
+	Force func(key string) *Proposal
 	// Invariant is evaluated at every quiescent point.
 	Invariant func() *Violation
 	// ActionSink receives every action as soon as it is chosen (crash capture).
@@ -606,6 +610,21 @@ func (w *World) Run(s Scheduler, lim RunLimits, done func() bool) *Violation {
 			ps := w.Propose()
 			for i := range ps {
 				choices = append(choices, Choice{Key: ps[i].Key, Proposal: &ps[i]})
+			}
+		}
+		if pk, ok := s.(interface{ Peek() (string, bool) }); ok && w.Force != nil {
+			if key, more := pk.Peek(); more && key != "t" {
+				found := false
+				for _, c := range choices {
+					if c.Key == key {
+						found = true
+					}
+				}
+				if !found {
+					if p := w.Force(key); p != nil {
+						choices = append(choices, Choice{Key: p.Key, Proposal: p})
+					}
+				}
 			}
 		}
 		idx, tick := s.Next(w, choices)
